@@ -3,4 +3,5 @@ pub mod codec;
 pub mod interp;
 pub mod gen;
 pub mod io;
+pub mod pgen;
 pub mod total;
